@@ -57,7 +57,10 @@ def enabled(m, cfg, out):
             for i, a in enumerate(live):
                 for b in live[i:] if cfg.get("ops2_sym", True) else live:
                     try:
-                        np.broadcast_shapes(m.shape(a), m.shape(b))
+                        if o == "matmul":
+                            np.matmul(np.zeros(m.shape(a)), np.zeros(m.shape(b)))
+                        else:
+                            np.broadcast_shapes(m.shape(a), m.shape(b))
                     except ValueError:
                         continue
                     sts.append(("op2", out, ("t", a), ("t", b), o))
